@@ -1,4 +1,5 @@
 """C18 — queries are pure: independent of call history, aliasing and concurrent use."""
+import ctypes
 import datetime as dt
 import hashlib
 import json
@@ -7,6 +8,7 @@ import struct
 import sys
 import threading
 import time
+import types
 
 import lib
 import tlegen
@@ -17,33 +19,44 @@ RULE = ("per near-earth TLE (repo test TLEs + generated LEO sets, epoch at and o
         "<= 10 mixed queries drawn with repetition from a per-TLE pool (get_position scalar/array, normalised or not; "
         "get_lonlatalt; get_observer_look scalar/array; get_orbit_number incl. tbus_style/as_float; get_last_an_time; "
         "get_next_passes 1-2 h) on ONE object, every result compared byte-wise with the same query on a FRESH object; "
-        "returned arrays and argument arrays are overwritten by the caller afterwards; arguments, Tle.__dict__ and the "
-        "module constants/tables are hashed before/after every call; (2) real threads under a deterministic scheduler "
-        "(sys.settrace, semaphores; a switch happens only before a source line of pyorbital/orbital.py): for two concurrent "
-        "get_orbit_number calls ALL single pre-emption points in get_orbit_number's own frame, the first two occurrences of "
-        "every distinct source line below it, a random sample of the rest (thorough: all), all two-pre-emption schedules "
-        "A^k B^m A* B* over own-frame points, get_orbit_number against every other query in both roles, sampled "
-        "multi-pre-emption schedules (3 threads in thorough), plus free-running threads with a 1 us switch interval; "
-        "every thread's result compared byte-wise with the fresh single-threaded result; the observed load/store sequence of "
-        "orbit_elements.an_time/an_period must be exactly the trace PV.Model.Cache produces for the same thread order and "
-        "every stored value must be the canonical one; distinct = (tle, history) or (tle, queries, plan)")
+        "returned arrays and argument arrays are overwritten by the caller afterwards; arguments, Tle.__dict__ and every "
+        "module-level data value of orbital/astronomy/tlefile are hashed before/after every call; (2) real threads under a "
+        "deterministic scheduler (sys.settrace, semaphores; a switch happens only before a source line of pyorbital/orbital.py): "
+        "for two concurrent get_orbit_number calls ALL single pre-emption points in get_orbit_number's own frame, the first "
+        "occurrence(s) of every distinct source line below it, a random sample of the rest, two-pre-emption schedules "
+        "A^k B^m A* B* over own-frame points, three-thread schedules A^k B* A^m C* A* (a complete call before and after a few "
+        "lines of a pre-empted one), get_orbit_number against every other query in both roles, sampled multi-pre-emption "
+        "schedules (3 threads in thorough; sometimes on a warmed object), plus free-running threads with a 1 us switch "
+        "interval; every thread's result compared byte-wise with the fresh single-threaded result; (3) correspondence: the "
+        "observed load/store sequence of orbit_elements.an_time/an_period (threads and sequential histories) must be exactly "
+        "the trace PV.Model.Cache produces when replayed in the observed thread order (driver op c18vis), the store "
+        "statement used must be the one a fresh call uses, and every stored/loaded value must be the canonical one; "
+        "distinct = (tle, history) or (tle, queries, plan) or (tle, event sequence)")
 ASSUMPTIONS = ["the GIL makes a single attribute load/store of orbit_elements atomic; thread switches inside one bytecode or "
                "inside numpy's C code are not modelled (the scheduler switches at source-line boundaries of pyorbital/orbital.py)",
                "numpy's own purity: ufuncs and datetime arithmetic return the same bytes for the same input bytes and keep no "
                "state between calls",
                "bit-identity of numerical results is compared on the sampled histories/schedules, not proved; the theorems are "
-               "about the cache protocol (which loads/stores happen, in which order, with which values)"]
-TRUSTED = ["model PV.Model.Cache (hand-written after orbital.py:299-338), tied by exact equality of load/store traces under the "
-           "deterministic scheduler and by comparing every stored value with the canonical one",
+               "about the cache protocol (which loads/stores happen, in which order, with which values)",
+               "a run is replayed in the model by the thread order of its load/store events; that the silent computations in "
+               "between may be moved next to the following event is proved step-wise (silent_commute), the reordering of a "
+               "whole run is not mechanised"]
+TRUSTED = ["model PV.Model.Cache (hand-written after orbital.py Orbital.get_orbit_number), tied by exact equality of load/store "
+           "traces under the deterministic scheduler and by comparing every stored value with the canonical one",
            "the sys.settrace scheduler of harness/props/c18.py (switch points = line events of pyorbital/orbital.py frames)"]
-LEVEL_TEXT = ("Theorems (Lean 4 kernel, core only; any number of threads, arbitrary schedules, arbitrary value domains): the "
-              "invariant 'each cache slot is empty or holds the canonical value, and a thread past its own store sees the slot "
-              "set' is preserved by every step of every thread (inv_step); hence under ANY interleaving no AttributeError escapes "
-              "the handler, every finished thread returned the value of a fresh single-threaded call, every thread finishes "
-              "within 10 of its own steps (any_interleaving_same_result); any sequence of completed queries leaves the cache "
-              "empty-or-canonical and later results equal fresh ones (history_independent); steps never touch TLE, arguments or "
-              "thread count and write a slot only at the two store steps (frame, frame_step). Tie: real threads under a "
-              "line-level deterministic scheduler, observed load/store traces equal the model's; results compared byte-wise.")
+LEVEL_TEXT = ("Theorems (Lean 4 kernel, core only; any number of threads, arbitrary schedules, arbitrary value domains, object "
+              "fresh or in any empty-or-canonical cache state): the invariant 'each cache slot is empty or holds the canonical "
+              "value, a thread past its own store sees the slot set, thread locals are canonical' holds initially (inv_init), is "
+              "preserved by every step of every thread (inv_step) and so holds in every reachable state (inv_reachable); hence "
+              "under ANY interleaving no AttributeError escapes the handler (no_attribute_error_escapes), every returned thread "
+              "returned the value of a fresh single-threaded call (any_interleaving_same_result; fresh_result: that value is a "
+              "function of TLE and arguments), every thread returns within 10 of its own steps (finishes_within), every "
+              "load/store event carries canonical values (trace_canonical); any sequence of completed queries returns fresh "
+              "results and leaves the cache empty-or-canonical (history_independent), also after an arbitrary unfinished "
+              "concurrent phase (history_after_any_run); steps never touch TLE, arguments, thread count or other threads' locals "
+              "(frame, frame_run) and write a slot only at the two store steps (frame_step); silent steps commute with other "
+              "threads' steps (silent_commute). Tie: real threads under a line-level deterministic scheduler, observed "
+              "load/store traces equal the model's; results compared byte-wise.")
 LEVEL_NOTE = ("Trusted: Lean kernel; axioms propext, Quot.sound (Classical.choice where grind/simp use it); the hand-written model "
               "and its trace correspondence; GIL atomicity of attribute access; numpy purity; bit-identity is measured, not proved.")
 TECHNIQUE = ("Lean 4 proof of an inductive invariant over a small-step interleaving model (all schedules, all thread counts) + "
@@ -80,6 +93,8 @@ def fp(x):
         return ("dt", repr(x))
     if isinstance(x, (tuple, list)):
         return (type(x).__name__, tuple(fp(v) for v in x))
+    if isinstance(x, (set, frozenset)):
+        return (type(x).__name__, tuple(sorted(repr(fp(v)) for v in x)))
     if isinstance(x, dict):
         return ("dict", tuple((repr(k), fp(v)) for k, v in sorted(x.items(), key=lambda kv: repr(kv[0]))))
     if isinstance(x, BaseException):
@@ -120,13 +135,15 @@ def scribble(x):
 
 
 def module_state():
-    """Module-level constants and tables of the three modules the queries run through."""
+    """Every module-level data value (constants, tables, caches; any name) of the three modules the queries run through."""
     np = _np()
     out = []
     for m in _mods():
         for k in sorted(vars(m)):
             v = vars(m)[k]
-            if k.isupper() and isinstance(v, (int, float, str, tuple, list, dict, np.ndarray, np.generic)):
+            if k.startswith("__"):
+                continue
+            if isinstance(v, (bool, int, float, str, bytes, tuple, list, dict, set, frozenset, np.ndarray, np.generic)) or v is None:
                 out.append((m.__name__, k, fp(v)))
     return tuple(out)
 
@@ -214,19 +231,34 @@ class _Timeout(Exception):
 
 
 def _guarded(fn, seconds=5.0):
-    """Run fn() in the main thread with a wall-clock guard (get_last_an_time may not terminate on exotic sets: C11's matter)."""
+    """Run fn() in the main thread with a guard (get_last_an_time may not terminate on exotic sets: C11's matter).
+    The budget is CPU time of this process, so a loaded machine cannot turn a slow call into a 'hang'; 20x the budget
+    of wall-clock time is the backstop."""
     if threading.current_thread() is not threading.main_thread():
         return fn()
+    c0, w0 = time.process_time(), time.time()
+    tick = max(0.25, seconds / 4.0)
 
     def on_alarm(signum, frame):
-        raise _Timeout()
+        if time.process_time() - c0 >= seconds or time.time() - w0 >= 20 * seconds:
+            raise _Timeout()
+        signal.setitimer(signal.ITIMER_REAL, tick)
     old = signal.signal(signal.SIGALRM, on_alarm)
-    signal.setitimer(signal.ITIMER_REAL, seconds)
+    signal.setitimer(signal.ITIMER_REAL, tick)
     try:
         return fn()
     finally:
         signal.setitimer(signal.ITIMER_REAL, 0)
         signal.signal(signal.SIGALRM, old)
+
+
+def _kill_threads(ths):
+    """watchdog of last resort: make runaway worker threads raise at their next bytecode"""
+    for t in ths:
+        if t.is_alive() and t.ident is not None:
+            ctypes.pythonapi.PyThreadState_SetAsyncExc(ctypes.c_ulong(t.ident), ctypes.py_object(Runaway))
+    for t in ths:
+        t.join(5)
 
 
 class Sat:
@@ -238,6 +270,7 @@ class Sat:
         self.epoch = o.tle.epoch
         self.refs = {}
         self._canon = None
+        self.branch = None      # 'e': an_time := tle.epoch (epoch at the node); 'n': an_time := get_last_an_time(epoch)
 
     def fresh(self, q):
         """(fingerprint, rendering) of q on a FRESH object, single-threaded; None when it does not terminate in time."""
@@ -262,9 +295,10 @@ class Sat:
                 o = new_orbital(self.tle)
                 call(o, {"m": "get_orbit_number"}, [self.epoch + np.timedelta64(1, "h")])
                 d = o.orbit_elements.__dict__
-                return tuple(fp(d[n]) if n in d else None for n in ("an_time", "an_period"))
+                br = "e" if d.get("an_time") is o.tle.epoch else "n"
+                return tuple(fp(d[n]) if n in d else None for n in ("an_time", "an_period")), br
             try:
-                self._canon = _guarded(run)
+                self._canon, self.branch = _guarded(run)
             except _Timeout:
                 self._canon = (None, None)
         return self._canon
@@ -275,34 +309,45 @@ def screen(sat, pool):
     return [q for q in pool if sat.fresh(q) is not None]
 
 
+def usable_sat(ctx, tle):
+    """a Sat on which a fresh get_orbit_number terminates and returns a number, else None"""
+    try:
+        sat = Sat(tle)
+    except Exception:  # noqa  not a usable element set (deep space, checksum ...): not this property's subject
+        ctx.count("tle_skipped")
+        return None
+    probe = {"m": "get_orbit_number", "tk": "np", "us": [3600 * 10 ** 6], "tbus": False, "as_float": False}
+    ref = sat.fresh(probe)
+    if ref is None or ref[0][0] in ("exc",) or sat.canon()[0] is None:
+        ctx.count("tle_skipped")
+        return None
+    return sat
+
+
 def gen_sats(ctx, n):
-    """near-earth element sets on which a fresh get_orbit_number terminates and returns a number"""
+    """near-earth element sets on which a fresh get_orbit_number terminates and returns a number: the repo's real TLEs
+    first, alternating between epoch off the ascending node (the handler calls get_last_an_time twice) and epoch at the
+    node (an_time := tle.epoch), then generated LEO sets"""
     cands = [(l1, l2) for (_, l1, l2) in tlegen.REAL_TLES]
+    cands = sorted(set(cands))
     ctx.rng.shuffle(cands)
-    # epoch off the node first (the handler then calls get_last_an_time twice)
-    cands.sort(key=lambda t: 0 if t[0][2:7] in ("25544", "29141") else 1)
+    by = {"n": [], "e": []}
+    for tle in cands:
+        sat = usable_sat(ctx, tle)
+        if sat is not None:
+            by[sat.branch].append(sat)
     out = []
-    i = 0
+    while (by["n"] or by["e"]) and len(out) < n:
+        for b in ("n", "e"):
+            if by[b] and len(out) < n:
+                out.append(by[b].pop(0))
     tries = 0
     while len(out) < n and tries < 40 * n:
         tries += 1
-        if i < len(cands):
-            tle = cands[i]
-            i += 1
-        else:
-            _, l1, l2 = tlegen.random_tle(ctx.rng, ctx.rng.choice(["leo", "leo", "near"]))
-            tle = (l1, l2)
-        try:
-            sat = Sat(tle)
-        except Exception:  # noqa  not a usable element set (deep space, checksum ...): not this property's subject
-            ctx.count("tle_skipped")
-            continue
-        probe = {"m": "get_orbit_number", "tk": "np", "us": [3600 * 10 ** 6], "tbus": False, "as_float": False}
-        ref = sat.fresh(probe)
-        if ref is None or ref[0][0] in ("exc",) or sat.canon()[0] is None:
-            ctx.count("tle_skipped")
-            continue
-        out.append(sat)
+        _, l1, l2 = tlegen.random_tle(ctx.rng, ctx.rng.choice(["leo", "leo", "near"]))
+        sat = usable_sat(ctx, (l1, l2))
+        if sat is not None:
+            out.append(sat)
     return out
 
 
@@ -366,7 +411,10 @@ class Runaway(BaseException):
 class Sched:
     """Token-passing scheduler. plan = [[tid, n], ...]: thread tid executes n source lines (line events in frames of
     pyorbital/orbital.py) and is pre-empted BEFORE its next one; when the plan is exhausted (or a segment's thread has
-    finished) the unfinished threads run to completion in thread order."""
+    finished) the thread holding the token runs to completion, then the unfinished threads in thread order.
+    Exactly one thread runs at any time (the others wait on their semaphores), so a run is deterministic.
+    Watchdogs: a thread executing more than max_lines source lines raises Runaway (an outcome); a semaphore wait or a
+    join that times out aborts the run with SchedulerError (harness failure, not a verdict) after killing the workers."""
 
     def __init__(self, fns, plan, filename, record_lines=False, timeout=60.0, max_lines=1500000):
         self.fns = fns
@@ -429,7 +477,7 @@ class Sched:
         while True:
             seg = self._active()
             if seg is None:
-                # free run; only the lowest unfinished thread may run
+                # plan exhausted: the token holder runs on (nobody else holds a token)
                 break
             if seg[0] != i:
                 self._handover(i, False)
@@ -484,11 +532,13 @@ class Sched:
             t.start()
         first = self._next()
         self.sems[first].release()
+        deadline = time.time() + self.timeout * 2
         for t in ths:
-            t.join(self.timeout * 2)
+            t.join(max(0.0, deadline - time.time()))
             if t.is_alive():
                 self._fail("join timed out")
         if self.abort is not None:
+            _kill_threads(ths)
             raise SchedulerError(self.abort)
         return self.results
 
@@ -496,6 +546,7 @@ class Sched:
 def install_spy(orb, log, tid):
     """Record every load/store/delete of the two cache slots (observation only: semantics of the attribute access kept)."""
     base = type(orb.orbit_elements)
+    epoch_obj = orb.tle.epoch
 
     class Spy(base):
         def __getattribute__(self, name):
@@ -505,21 +556,22 @@ def install_spy(orb, log, tid):
             try:
                 v = object.__getattribute__(self, name)
             except AttributeError:
-                log.append((tid(), "L" + tag, False, None))
+                log.append((tid(), "L" + tag, False, None, ""))
                 raise
-            log.append((tid(), "L" + tag, True, fp(v)))
+            log.append((tid(), "L" + tag, True, fp(v), ""))
             return v
 
         def __setattr__(self, name, value):
             tag = SPY_NAMES.get(name)
             if tag is not None:
-                log.append((tid(), "S" + tag, True, fp(value)))
+                # the `epoch at the node` statement stores the very object tle.epoch, the other one a new datetime64
+                log.append((tid(), "S" + tag, True, fp(value), ("e" if value is epoch_obj else "n") if tag == "T" else ""))
             object.__setattr__(self, name, value)
 
         def __delattr__(self, name):
             tag = SPY_NAMES.get(name)
             if tag is not None:
-                log.append((tid(), "D" + tag, True, None))
+                log.append((tid(), "D" + tag, True, None, ""))
             object.__delattr__(self, name)
     orb.orbit_elements.__class__ = Spy
 
@@ -530,6 +582,7 @@ def run_schedule(sat, queries, plan, spy=False, record_lines=False, warm=None):
     orb = new_orbital(sat.tle)
     for q in (warm or []):
         call(orb, q, mkargs(q, sat.epoch))
+    cache0 = cache_letters(sat, orb)
     argss = [mkargs(q, sat.epoch) for q in queries]
     a0 = [fp(a) for a in argss]
     t0 = fp(orb.tle.__dict__)
@@ -542,10 +595,20 @@ def run_schedule(sat, queries, plan, spy=False, record_lines=False, warm=None):
     if spy:
         install_spy(orb, log, s.tid)
     res = s.run()
-    d = orb.orbit_elements.__dict__
     return {"results": res, "fps": [fp(r) for r in res], "log": log, "lines": s.lines, "linelog": s.linelog,
             "args_ok": [fp(a) == b for a, b in zip(argss, a0)], "tle_ok": fp(orb.tle.__dict__) == t0,
-            "cache": tuple(fp(d[n]) if n in d else None for n in ("an_time", "an_period")), "switches": s.switches}
+            "cache": cache_of(orb), "cache0": cache0, "switches": s.switches}
+
+
+def cache_of(orb):
+    d = orb.orbit_elements.__dict__
+    return tuple(fp(d[n]) if n in d else None for n in ("an_time", "an_period"))
+
+
+def cache_letters(sat, orb):
+    """state of the two slots in the driver's notation: `_` empty, `c` canonical, `x` anything else"""
+    canon = sat.canon()
+    return "".join("_" if c is None else ("c" if c == k else "x") for c, k in zip(cache_of(orb), canon))
 
 
 def is_orbit(q):
@@ -588,37 +651,39 @@ def judge_results(sat, queries, plan, r, on_violation, warm=None):
 
 def fmt_events(log):
     out = []
-    for (tid, kind, hit, _v) in log:
+    for (tid, kind, hit, _v, extra) in log:
         if kind[0] == "L":
             out.append("%d:%s%s" % (tid, kind, "+" if hit else "-"))
         else:
-            out.append("%d:%s" % (tid, kind))
+            out.append("%d:%s%s" % (tid, kind, extra))
     return ",".join(out) if out else "-"
 
 
-def model_line(queries, log):
+def model_line(sat, queries, log, cache0="__"):
+    """driver op: the calls, the store statement a fresh call uses on this TLE, the initial cache state, and the thread
+    order of the observed load/store events (nothing else of the observation goes in)"""
     calls = ",".join(("o%d" if is_orbit(q) else "q%d") % i for i, q in enumerate(queries))
     sched = ",".join(str(e[0]) for e in log) if log else "-"
-    return "c18vis %s %s" % (calls, sched)
+    return "c18vis %s %s %s %s" % (sat.branch or "n", cache0, calls, sched)
 
 
-def model_expect(sat, queries, r):
-    """what the model's output line must be if the implementation's run is a run of the model"""
+def model_expect(sat, queries, fps, log, cache):
+    """what the model's output line must be if the implementation's run is a run of the model
+    (the model instance has canonical an_time 7 and an_period 128; thread i returns i.7.128)"""
     canon = sat.canon()
     res = []
     for i, q in enumerate(queries):
-        ok = r["fps"][i] == sat.fresh(q)[0]
+        ok = fps[i] == sat.fresh(q)[0]
         res.append(("D:%d.7.128" % i if is_orbit(q) else "D:%d" % i) if ok else "differs-from-fresh")
-    c = r["cache"]
-    cache = "%s/%s" % ("_" if c[0] is None else ("7" if c[0] == canon[0] else "non-canonical"),
-                       "_" if c[1] is None else ("128" if c[1] == canon[1] else "non-canonical"))
-    return "ev=%s res=%s cache=%s" % (fmt_events(r["log"]), ",".join(res), cache)
+    cache = "%s/%s" % ("_" if cache[0] is None else ("7" if cache[0] == canon[0] else "non-canonical"),
+                       "_" if cache[1] is None else ("128" if cache[1] == canon[1] else "non-canonical"))
+    return "ev=%s res=%s cache=%s" % (fmt_events(log), ",".join(res), cache)
 
 
-def stored_values_ok(sat, r):
+def stored_values_ok(sat, log):
     canon = sat.canon()
     bad = []
-    for (tid, kind, hit, v) in r["log"]:
+    for (tid, kind, hit, v, _x) in log:
         if kind == "ST" and v != canon[0]:
             bad.append("thread %d stored a non-final an_time" % tid)
         if kind == "SP" and v != canon[1]:
@@ -642,17 +707,37 @@ def sample(rng, xs, n):
     return xs if n is None or len(xs) <= n else sorted(rng.sample(xs, n))
 
 
-def concurrency(ctx, sats, judge, spy, mode, scale=1):
+class Budget:
+    """wall-clock budget of one stage: enumeration stops (and says so in the evidence) instead of overrunning the tier"""
+
+    def __init__(self, ctx, seconds):
+        self.ctx = ctx
+        self.t0 = time.time()
+        self.seconds = seconds
+        self.skipped = 0
+
+    def over(self):
+        if time.time() - self.t0 > self.seconds:
+            if not self.skipped:
+                self.ctx.note("stage time budget of %d s reached; remaining schedules skipped" % self.seconds)
+            self.skipped += 1
+            self.ctx.count("skipped_over_budget")
+            return True
+        return False
+
+
+def concurrency(ctx, sats, judge, spy, mode, budget, scale=1):
     """Enumerate schedules; judge(sat, queries, plan, r, warm) is called for every run.
     mode 'model': the points at which the cache protocol can be observed (own frame of get_orbit_number);
     mode 'full': in addition every distinct source line below it (scratch state of the propagator)."""
     rng = ctx.rng
     thorough = ctx.tier == "thorough"
-    runs = 0
 
     def go(sat, qs, plan, label, warm=None):
         if len(ctx.violations) + len(ctx.disagreements) > 25:
             return                                              # enough evidence; do not pile up
+        if budget.over():
+            return
         r = run_schedule(sat, qs, plan, spy=spy, warm=warm)
         judge(sat, qs, plan, r, warm)
         ctx.bump("schedules", label)
@@ -660,21 +745,19 @@ def concurrency(ctx, sats, judge, spy, mode, scale=1):
     for si, sat in enumerate(sats):
         lead = si == 0
         pool = screen(sat, gen_pool(rng))
-        qa, qb = orbit_query(rng), orbit_query(rng)
-        if sat.fresh(qa) is None or sat.fresh(qb) is None:
+        qa, qb, qc = orbit_query(rng), orbit_query(rng), orbit_query(rng)
+        if any(sat.fresh(q) is None for q in (qa, qb, qc)):
             continue
         n, own, firsts, _ = points_of(sat, qa, occ=2 if thorough else 1)
         ctx.bump("schedule_points", "source lines executed by one fresh get_orbit_number", n)
         ctx.bump("schedule_points", "of which in its own frame", len(own))
+        ctx.bump("store_statement", {"e": "epoch at the node", "n": "get_last_an_time(epoch)"}.get(sat.branch, "?"))
         # --- two get_orbit_number calls: single pre-emption of A by a complete B
         ks = set(own) | {n}
         if mode == "full" and (lead or thorough):
             ks |= set(firsts)
         rest = [k for k in range(n + 1) if k not in ks]
-        if thorough and lead and mode == "full":
-            ks |= set(rest)                                   # all single pre-emption points
-        else:
-            ks |= set(sample(rng, rest, (200 if thorough else 20) * scale))
+        ks |= set(sample(rng, rest, ((1500 if lead and mode == "full" else 200) if thorough else 20) * scale))
         for k in sorted(ks):
             go(sat, [qa, qb], [[0, k], [1, INF]], "orbit|orbit single pre-emption")
         # --- two pre-emptions: A^k B^m A* B*
@@ -684,6 +767,13 @@ def concurrency(ctx, sats, judge, spy, mode, scale=1):
             double = [double[i] for i in sample(rng, range(len(double)), 30 * scale)]
         for plan in double:
             go(sat, [qa, qb], plan, "orbit|orbit two pre-emptions")
+        # --- three calls: A pre-empted, B complete, A a few more lines, C complete, A resumes
+        #     (a value A stores late is read by a call that finds the cache complete)
+        triple = [[[0, k], [1, INF], [0, m], [2, INF], [0, INF]] for k in own for m in (1, 2, 3)]
+        if not lead and not thorough:
+            triple = [triple[i] for i in sample(rng, range(len(triple)), 20 * scale)]
+        for plan in triple:
+            go(sat, [qa, qb, qc], plan, "orbit|orbit|orbit A^k B* A^m C* A*")
         # --- get_orbit_number against every other kind of query, both roles
         for q in [q for q in pool if not is_orbit(q)]:
             kk = own if thorough else (own[::2] if lead else sample(rng, own, 5 * scale))
@@ -693,7 +783,7 @@ def concurrency(ctx, sats, judge, spy, mode, scale=1):
                 go(sat, [qa, q], [[0, k], [1, INF]], "orbit pre-empted by " + q["m"])
             nq, ownq, firstsq, _ = points_of(sat, q, occ=1)
             pts = sorted(set(ownq) | set(firstsq) | {nq})
-            pts = sample(rng, pts, None if thorough else ((15 if lead else 5) * scale if mode == "full" else 4 * scale))
+            pts = sample(rng, pts, (60 if thorough else ((15 if lead else 5) if mode == "full" else 4)) * scale)
             for k in pts:
                 go(sat, [qa, q], [[1, k], [0, INF]], q["m"] + " pre-empted by orbit")
         # --- sampled multi-pre-emption schedules; 3 threads in the thorough tier; sometimes on a warmed object
@@ -708,31 +798,44 @@ def concurrency(ctx, sats, judge, spy, mode, scale=1):
                 plan.append([rng.randrange(nthreads), rng.randrange(1, 8) if small else rng.randrange(1, max(2, n))])
             warm = [rng.choice(pool)] if rng.random() < 0.2 else None
             go(sat, qs, plan, "sampled multi-pre-emption x%d" % nthreads, warm)
-    return runs
 
 
-def free_running(ctx, sat, on_violation, rounds, nthreads=4):
+def run_free(sat, qs, timeout=60.0):
+    """No scheduler: real pre-emptive threads on one fresh object; results (Runaway for a thread that never returned)."""
+    orb = new_orbital(sat.tle)
+    argss = [mkargs(q, sat.epoch) for q in qs]
+    res = [Runaway("no result after %d s" % timeout)] * len(qs)
+    bar = threading.Barrier(len(qs))
+
+    def work(i):
+        bar.wait(timeout)
+        try:
+            res[i] = call(orb, qs[i], argss[i])
+        except BaseException as e:  # noqa  (Runaway injected by the watchdog)
+            res[i] = e
+    ths = [threading.Thread(target=work, args=(i,), daemon=True) for i in range(len(qs))]
+    for t in ths:
+        t.start()
+    deadline = time.time() + timeout
+    for t in ths:
+        t.join(max(0.0, deadline - time.time()))
+    if any(t.is_alive() for t in ths):
+        _kill_threads(ths)
+    return res
+
+
+def free_running(ctx, sat, on_violation, rounds, budget, nthreads=4):
     """No scheduler: real pre-emptive threads on one fresh object with a 1 us switch interval."""
     old = sys.getswitchinterval()
     sys.setswitchinterval(1e-6)
     try:
         for _ in range(rounds):
-            orb = new_orbital(sat.tle)
+            if budget.over() or len(ctx.violations) > 25:
+                return
             qs = [orbit_query(ctx.rng) for _ in range(nthreads)]
             if any(sat.fresh(q) is None for q in qs):
                 continue
-            argss = [mkargs(q, sat.epoch) for q in qs]
-            res = [None] * nthreads
-            bar = threading.Barrier(nthreads)
-
-            def work(i):
-                bar.wait()
-                res[i] = call(orb, qs[i], argss[i])
-            ths = [threading.Thread(target=work, args=(i,), daemon=True) for i in range(nthreads)]
-            for t in ths:
-                t.start()
-            for t in ths:
-                t.join(60)
+            res = run_free(sat, qs)
             ctx.count("eval_free_running", nthreads)
             for i, q in enumerate(qs):
                 if fp(res[i]) != sat.fresh(q)[0]:
@@ -744,60 +847,85 @@ def free_running(ctx, sat, on_violation, rounds, nthreads=4):
 
 
 # ---------------------------------------------------------------- protocol stages
+def spied_history(sat, hist):
+    """A history on one object with the two slots observed; event 'thread' ids are positions in the history."""
+    orb = new_orbital(sat.tle)
+    log = []
+    cur = [0]
+    install_spy(orb, log, lambda: cur[0])
+    fps = []
+    for idx, q in enumerate(hist):
+        cur[0] = idx
+        try:
+            res = _guarded(lambda: call(orb, q, mkargs(q, sat.epoch)), 20.0)
+        except _Timeout:
+            res = Runaway("no result after 20 s")
+        fps.append(fp(res))
+    return fps, log, cache_of(orb)
+
+
+def corr_schedule(sat, queries, plan, warm, r=None):
+    """(driver line, expected output, value complaints) of one scheduled run"""
+    if r is None:
+        r = run_schedule(sat, queries, plan, spy=True, warm=warm)
+    return (model_line(sat, queries, r["log"], r["cache0"]), model_expect(sat, queries, r["fps"], r["log"], r["cache"]),
+            stored_values_ok(sat, r["log"]), r)
+
+
+def corr_history(sat, hist):
+    fps, log, cache = spied_history(sat, hist)
+    return model_line(sat, hist, log), model_expect(sat, hist, fps, log, cache), stored_values_ok(sat, log), log
+
+
 def correspond(ctx):
-    """Model vs implementation: the observed load/store sequence of an_time/an_period under the deterministic scheduler
-    must be the model's trace for the same thread order; every stored value must be the canonical one; sequential
-    histories must leave each slot unset or canonical."""
+    """Model vs implementation: the observed load/store sequence of an_time/an_period (real threads under the deterministic
+    scheduler; sequential histories) must be the model's trace when replayed in the observed thread order; every stored or
+    loaded value must be the canonical one."""
     drv = ctx.driver()
+    budget = Budget(ctx, 40 if ctx.tier == "quick" else 300)
     sats = gen_sats(ctx, ctx.size(2, 6))
     lines, expects, cases = [], [], []
 
     def judge(sat, queries, plan, r, warm):
         ctx.count("eval_corr_schedule")
         case = {"kind": "schedule", "tle": list(sat.tle), "queries": queries, "plan": plan, "warm": warm or []}
-        if warm:
-            # the model line starts from an empty cache; a warmed object is judged on stored values only
-            pass
-        else:
-            lines.append(model_line(queries, r["log"]))
-            expects.append(model_expect(sat, queries, r))
-            cases.append(case)
-        bad = stored_values_ok(sat, r)
+        ln, exp, bad, _ = corr_schedule(sat, queries, plan, warm, r)
+        lines.append(ln)
+        expects.append(exp)
+        cases.append(case)
         if bad:
             ctx.disagree("c18values", case, "; ".join(sorted(set(bad))[:4]), "every stored/loaded slot value is canonical")
-        ctx.distinct((sat.tle[0][2:7], fmt_events(r["log"])))
+        ctx.distinct((sat.tle[0][2:7], r["cache0"], fmt_events(r["log"])))
         ctx.bump("events_per_run", len(r["log"]))
         if len(cases) <= 3 and r["log"]:
             ctx.sample({"queries": [q["m"] for q in queries], "plan": plan, "events": fmt_events(r["log"])})
 
-    concurrency(ctx, sats, judge, spy=True, mode="model")
+    concurrency(ctx, sats, judge, spy=True, mode="model", budget=budget)
+    # sequential histories, slots observed: same model, the 'threads' run one after the other
+    for sat in sats:
+        pool = screen(sat, gen_pool(ctx.rng))
+        for _ in range(ctx.size(10, 100)):
+            hist = gen_history(ctx.rng, pool)
+            case = {"kind": "history", "tle": list(sat.tle), "hist": hist, "index": len(hist) - 1}
+            ln, exp, bad, log = corr_history(sat, hist)
+            ctx.count("eval_corr_history", len(hist))
+            lines.append(ln)
+            expects.append(exp)
+            cases.append(case)
+            if bad:
+                ctx.disagree("c18values", case, "; ".join(sorted(set(bad))[:4]), "every stored/loaded slot value is canonical")
+            ctx.distinct((sat.tle[0][2:7], "h", fmt_events(log)))
     outs = drv.run(lines)
     for ln, exp, got, case in zip(lines, expects, outs, cases):
         if exp != got:
             ctx.disagree("c18vis", dict(case, driver_line=ln), exp, got)
-    # sequential histories: slots unset or canonical after every query
-    for sat in sats:
-        pool = screen(sat, gen_pool(ctx.rng))
-        canon = sat.canon()
-        for _ in range(ctx.size(10, 100)):
-            hist = gen_history(ctx.rng, pool)
-            orb = new_orbital(sat.tle)
-            for idx, q in enumerate(hist):
-                call(orb, q, mkargs(q, sat.epoch))
-                ctx.count("eval_corr_history")
-                d = orb.orbit_elements.__dict__
-                got = tuple(fp(d[n]) if n in d else None for n in ("an_time", "an_period"))
-                seen_orbit = any(is_orbit(h) for h in hist[:idx + 1])
-                exp = canon if seen_orbit else (None, None)
-                if got != exp:
-                    ctx.disagree("c18cache", {"kind": "history", "tle": list(sat.tle), "hist": hist[:idx + 1], "index": idx},
-                                 "slots set: %s, canonical: %s" % ([g is not None for g in got], [g == c for g, c in zip(got, canon)]),
-                                 "both canonical" if seen_orbit else "both unset")
 
 
 def oracle(ctx):
     """The property on the implementation, from the statement alone (no model, no instrumentation of the object)."""
     scale = 4 if ctx.intensified else 1
+    quick = ctx.tier == "quick"
+    budget = Budget(ctx, (45 if not ctx.intensified else 150) if quick else 480)
     sats = gen_sats(ctx, ctx.size(3, 10))
 
     def viol(kind, case, observed, required, site):
@@ -807,68 +935,108 @@ def oracle(ctx):
     for sat in sats:
         pool = screen(sat, gen_pool(ctx.rng))
         for _ in range(ctx.size(40, 600)):
+            if budget.over():
+                break
             hist = gen_history(ctx.rng, pool)
             run_history(sat, hist, viol, count=lambda: ctx.count("eval_history_query"))
             ctx.distinct((sat.tle[0][2:7], "h", tuple(qkey(q) for q in hist)))
             ctx.bump("history_length", len(hist))
             if len(ctx.violations) > 20:
                 return
+    budget = Budget(ctx, (35 if not ctx.intensified else 150) if quick else 420)
+
     # (2) schedules
     def judge(sat, queries, plan, r, warm):
         ctx.count("eval_schedule")
         judge_results(sat, queries, plan, r, viol, warm)
         ctx.distinct((sat.tle[0][2:7], "s", tuple(qkey(q) for q in queries), json.dumps(plan)))
-    concurrency(ctx, sats[:ctx.size(2, 6)], judge, spy=False, mode="full", scale=scale)
+    concurrency(ctx, sats[:ctx.size(2, 6)], judge, spy=False, mode="full", budget=budget, scale=scale)
     for sat in sats[:2]:
-        free_running(ctx, sat, viol, rounds=ctx.size(10, 200))
+        free_running(ctx, sat, viol, ctx.size(10, 200), budget)
     m = module_state()
-    ctx.sample({"tles": [s.tle[0][2:7] for s in sats], "module_constants_hashed": len(m)})
+    ctx.sample({"tles": [s.tle[0][2:7] for s in sats], "module_level_values_hashed": len(m)})
 
 
 def match_known(entry, v):
     return False
 
 
-def replay(ctx, case):
-    inp = case.get("input", case)
+def _replay_one(inp, found, corr):
+    """re-run one recorded case; `found` collects (kind, observed, required)"""
     sat = Sat(inp["tle"])
-    found = []
 
     def viol(kind, c, observed, required, site):
         found.append((kind, observed, required))
+
+    def model_says(line, exp):
+        try:
+            out = lib.Driver().run([line])[0]
+        except Exception as e:  # noqa
+            print("  model not available:", e)
+            return
+        print("  model, same thread order:", out)
+        if out != exp:
+            print("  implementation          :", exp)
+            if corr:
+                found.append(("trace_not_a_model_trace", exp, out))
     if inp.get("kind") == "history":
         print("history on one object (%d queries):" % len(inp["hist"]))
         for q in inp["hist"]:
             print("  ", qkey(q))
         run_history(sat, inp["hist"], viol)
-    elif inp.get("kind") == "schedule":
-        print("threads:", [q["m"] for q in inp["queries"]], "plan [thread, source lines]:", inp["plan"], "warm-up:", len(inp.get("warm") or []))
-        r = run_schedule(sat, inp["queries"], inp["plan"], spy=True, warm=inp.get("warm") or None)
-        print("load/store events:", fmt_events(r["log"]))
-        for i, q in enumerate(inp["queries"]):
-            print("  thread %d %s -> %s   (fresh: %s)" % (i, q["m"], short(r["results"][i], 80), sat.fresh(q)[1][:80]))
-        bad = stored_values_ok(sat, r)
+        line, exp, bad, log = corr_history(sat, inp["hist"])
+        print("  load/store events:", fmt_events(log))
         if bad:
             print("  cache protocol:", "; ".join(sorted(set(bad))))
-        judge_results(sat, inp["queries"], inp["plan"], r, viol, inp.get("warm"))
-        try:
-            out = lib.Driver().run([model_line(inp["queries"], r["log"])])[0]
-            print("model, same thread order:", out)
-        except Exception as e:  # noqa
-            print("model not available:", e)
+            if corr:
+                found.append(("non_canonical_slot_value", "; ".join(sorted(set(bad))[:3]), "canonical values only"))
+        model_says(line, exp)
+    elif inp.get("kind") == "schedule":
+        print("threads:", [q["m"] for q in inp["queries"]], "plan [thread, source lines]:", inp["plan"],
+              "warm-up:", len(inp.get("warm") or []))
+        warm = inp.get("warm") or None
+        line, exp, bad, r = corr_schedule(sat, inp["queries"], inp["plan"], warm)
+        print("  load/store events:", fmt_events(r["log"]))
+        for i, q in enumerate(inp["queries"]):
+            print("  thread %d %s -> %s   (fresh: %s)" % (i, q["m"], short(r["results"][i], 80), sat.fresh(q)[1][:80]))
+        if bad:
+            print("  cache protocol:", "; ".join(sorted(set(bad))))
+            if corr:
+                found.append(("non_canonical_slot_value", "; ".join(sorted(set(bad))[:3]), "canonical values only"))
+        judge_results(sat, inp["queries"], inp["plan"], r, viol, warm)
+        model_says(line, exp)
     elif inp.get("kind") == "free":
-        for _ in range(50):
-            orb = new_orbital(sat.tle)
-            qs = inp["queries"]
-            res = [None] * len(qs)
-            ths = [threading.Thread(target=lambda i=i: res.__setitem__(i, call(orb, qs[i], mkargs(qs[i], sat.epoch)))) for i in range(len(qs))]
-            [t.start() for t in ths]
-            [t.join() for t in ths]
-            for i, q in enumerate(qs):
-                if fp(res[i]) != sat.fresh(q)[0]:
-                    found.append(("interleaving_dependent", short(res[i]), sat.fresh(q)[1]))
+        old = sys.getswitchinterval()
+        sys.setswitchinterval(1e-6)
+        try:
+            for _ in range(200):
+                res = run_free(sat, inp["queries"])
+                for i, q in enumerate(inp["queries"]):
+                    if fp(res[i]) != sat.fresh(q)[0]:
+                        found.append(("interleaving_dependent", short(res[i]), sat.fresh(q)[1]))
+                if found:
+                    break
+        finally:
+            sys.setswitchinterval(old)
+    else:
+        print("unknown kind of case:", inp.get("kind"))
+
+
+def replay(ctx, case):
+    found = []
+    if "input" in case:                                  # a violating input found by the oracle
+        _replay_one(case["input"], found, corr=False)
+    elif case.get("first_disagreements"):                # a broken correspondence (no failing input was found)
+        print("recorded correspondence disagreements: %d" % len(case["first_disagreements"]))
+        for d in case["first_disagreements"][:3]:
+            _replay_one(d["case"], found, corr=True)
+    else:
+        for b in case.get("broken", []):
+            print("broken: %s: %s" % (b.get("stage"), str(b.get("detail"))[:400]))
+        print("nothing to re-run in this file (proof obligations are re-checked by ./check C18 --tier quick)")
+        return 1 if case.get("broken") else 0
     for k, o, rq in found[:6]:
         print("VIOLATES %s: observed %s; required %s" % (k, o, rq))
     if not found:
-        print("no deviation: every result equals the fresh-object result, inputs unchanged")
+        print("no deviation: every result equals the fresh-object result, inputs unchanged, traces are model traces")
     return 1 if found else 0
